@@ -20,8 +20,8 @@ PROFILES = {
     'requests':  dict(BASE, pGuardCancel=0, pGuardIssue=25, pIssue=60, maxBatch=6, wImmediate=3),
     'single':    dict(BASE, pGuardCancel=60, pGuardIssue=0, pIssue=0, maxBatch=1, wImmediate=5),
     'lifecycle': dict(BASE, wReset=3, wExitEnter=4, wRecreate=25, pGuardCancel=100, pGuardIssue=80),
-    'guards':    dict(BASE, pGuardCancel=160, pGuardIssue=260, pIssue=40, maxBatch=2),
-    'guards-lo': dict(BASE, pGuardCancel=40, pGuardIssue=400, pIssue=20, maxBatch=1),
+    'guards':    dict(BASE, pInjCancel=120, pGuardCancel=160, pGuardIssue=260, pIssue=40, maxBatch=2),
+    'guards-lo': dict(BASE, pInjCancel=40, pGuardCancel=40, pGuardIssue=400, pIssue=20, maxBatch=1),
     'history':   dict(BASE, pGuardCancel=100, pGuardIssue=150, wReset=1, wExitEnter=1, replica=1),
     'replica':   dict(BASE, pGuardCancel=60, pGuardIssue=40, pIssue=20, maxBatch=2, replica=1, kinds=0x4f),
     'order':     dict(BASE, pConsume=120, pGuardCancel=50, pGuardIssue=30, wReact=8, wQuery=5, wUpdate=6),
@@ -385,9 +385,33 @@ def c10_engine(prop, tier, seed, keep=False):
             if k.startswith('C10'): stats[k] = stats.get(k, 0) + v
         for h in r['nt'].get('C10', []): distinct.add(h)
         evals += s['stats'].get('C10.lockstep-operations', 0)
+    # instance flavours without a reference context (no context / pointer / value context, built-in generator): stand-alone harness
+    unit = {}
+    def unit_job(fl):
+        src = open(os.path.join(vlib.VERIF, 'units', 'c10_ctxless.cpp')).read()
+        b, out = vlib.build_one(src, fl, name='c10_ctxless')
+        if not b: return (fl, None, 'build failed: ' + out[:800], '')
+        rc_, so_, se_ = vlib.run_bin(b, [tier, str(seed)], timeout=1500, memcheck=fl.endswith('-vg'))
+        return (fl, rc_, so_, se_)
+    for fl, rc_, so_, se_ in vlib.pmap(unit_job, ['u-gcc', 'u-clang-asan', 'gcc-vg'] + (['u-gcc-O2', 'u-clang-O1'] if tier == 'thorough' else [])):
+        runinfo = {'cmd': 'units/c10_ctxless.cpp %s %d' % (tier, seed), 'flavour': fl}
+        if rc_ is None: V.harness_errors.append('c10_ctxless %s: %s' % (fl, so_.replace('\n', ' | ')[:500])); continue
+        skey = vlib.sanitizer_key(se_) if se_ else None
+        if skey: V.add(skey, 1, {'stderr': se_[-1500:], 'flavour': fl}, runinfo)
+        elif rc_ == 99: V.add('memcheck:error', 1, {'stderr': se_[-1500:], 'flavour': fl}, runinfo)
+        elif rc_ != 0: V.add('crash|rc=%d' % rc_, 1, {'stderr': se_[-800:], 'flavour': fl}, runinfo)
+        for line in so_.split('\n'):
+            if line.startswith('V '):
+                parts = line.split(' ', 2); V.add('ctxless|' + parts[1], 1, {'detail': parts[2] if len(parts) > 2 else '', 'flavour': fl}, runinfo)
+            elif line.startswith('B '):
+                import check_log
+                pp = line.split(); V.add_other('C11', 'assert|' + check_log.assert_key(pp[1], int(pp[2])), 1)
+            elif line.startswith('Z '):
+                z = [int(x) for x in line.split()[1:]]; unit[fl] = {'comparisons': z[0], 'copy/move experiments': z[1]}; evals += z[0]
+                distinct.add(('c10_ctxless', fl))
     cov = {'evaluations': evals, 'distinct_nontrivial': len(distinct), 'samples': samples,
            'rule': 'evaluations = API operations executed in differential runs (same program, seed and callback answers; instance storage pre-filled with 0x00/0xFF/0xA5/0x55/noise, at shifted addresses, on 4 threads under ThreadSanitizer, under valgrind memcheck) plus lock-step original/copy operations; distinct_nontrivial = distinct (shape, flavour, mode) differential experiments and (configuration, operation) pairs on which a copy was compared with its original',
-           'variants_compared': variants, 'log_lines_compared': lines, 'copy_stats': stats, 'shapes': [s['name'] for s in allshapes], 'builtin_generator_shapes': [s['name'] for s in extra]}
+           'variants_compared': variants, 'log_lines_compared': lines, 'copy_stats': stats, 'context_less_pointer_and_value_context_instances': unit, 'shapes': [s['name'] for s in allshapes], 'builtin_generator_shapes': [s['name'] for s in extra]}
     return V.finish(cov, ['differential oracle: byte-equality of complete event logs', 'MemorySanitizer is not used (uninstrumented libstdc++); valgrind memcheck on un-prefilled storage plus the pre-fill differential cover uninitialised reads', 'copies share their original\'s context and generator by reference (library design); the scripted generator outlives both'])
 
 # ---------------------------------------------------------------------------------------------
